@@ -80,7 +80,7 @@ def adv_rules(prog, R):
                 doms.sort(key=lambda d: -len([e for e in b.cfg.reachable if b.cfg.dominates(e, d)]))
                 verdict = None
                 for d0 in doms[:6]:
-                    paths = Sym(prog, b).run(d0, init=self_init())
+                    paths = Sym(prog, b, inline=True).run(d0, init=self_init())
                     got = []
                     for p in paths:
                         bw = [(blk, v) for (blk, loc, v) in p.writes if loc == byte_loc]
@@ -189,10 +189,17 @@ def mark_rules(prog, R):
 
 
 # ------------------------------------------------------------------------------------------------ FIND-1
+def _vals(v):
+    if isinstance(v, Aff):
+        yield v
+    elif isinstance(v, Agg):
+        for f in v.fields:
+            for x in _vals(f):
+                yield x
+
+
 def find_rules(prog, R):
-    R.rule('FIND-1', 'an offset found by memchr in `buffer[s..]` is made a buffer offset by adding the very same `s` (and the needle is LF)')
-    cl = Closures(prog)
-    n = 0
+    R.rule('FIND-1', 'an offset found by memchr in `buffer[s..]` is made a buffer offset by adding the very same `s` (and the needle is LF); a verdict is given only where the flow of the found offset is visible (a closure applied to it, a value computed from it, a loop item): a raw tail-relative offset that is returned or stored, or one re-based by something else, is a violation')
     for fmt in ('fasta', 'fastq'):
         for b in reader_bodies(prog, fmt):
             mc = [(x, t) for x, t in b.calls() if t.callee and (t.callee.is_('memchr::memchr') or 'Memchr' in t.callee.path and t.callee.name == 'new')]
@@ -201,79 +208,98 @@ def find_rules(prog, R):
             loops = b.cfg.natural_loops()
             ev = Sym(prog, b)
             ent = ev.run(0, stops=set(loops), init=self_init())
+            allp = ent if not loops else ent + [p for h in loops for p in ev.run(h, stops={h}, init=self_init())]
             for x, t in mc:
-                # the slice argument: Index::index(buffer, RangeFrom{start: S})
                 S = None
                 needle = None
-                for p in ent:
+                whole = False
+                for p in allp:
                     for (bx, tt, a) in p.effects:
-                        if tt is t:
+                        if tt is t and len(a) == 2:
                             needle = a[0]
                             hay = a[1]
+                            if isinstance(hay, Aff) and isinstance(hay.single(), tuple) and hay.single()[0] == 'buffer':
+                                whole = True
                             for (by, t2, a2) in p.effects:
                                 if t2.callee and t2.callee.is_('std::ops::Index::index') and Aff.sym(('call', t2.callee.path, by)) == hay and isinstance(a2[1], Agg) and len(a2[1].fields) == 1:
                                     S = a2[1].fields[0]
-                if S is None:
-                    whole = False
-                    for p in ent:
-                        for (bx, tt, a) in p.effects:
-                            if tt is t and isinstance(a[1], Aff) and isinstance(a[1].single(), tuple) and a[1].single()[0] == 'buffer':
-                                whole = True
-                    n += 1
-                    R.add('FIND-1', b, 'memchr-on-a-tail-of-the-buffer', whole, site(b, t.line),
-                          'the whole buffer is searched: the found offset is a buffer offset as it is' if whole else 'cannot see the start offset of the searched slice [UNDECIDED]')
+                where = site(b, t.line)
+                if needle is not None and needle != Aff.const(10):
+                    R.add('FIND-1', b, 'needle-is-LF', False, where, 'memchr searches for %r' % (needle,))
+                if whole:
+                    R.add('FIND-1', b, 'found-offset-rebased-by-slice-start', True, where, 'the whole buffer is searched: the found offset is a buffer offset as it is')
                     continue
-                rebased = None
-                detail = ''
-                # (a) Option::map(closure) on the result: closure(upvar, pos) = upvar + pos + c
+                if S is None or not isinstance(S, Aff):
+                    R.undecided('FIND-1', b, 'found-offset-rebased-by-slice-start', where, 'cannot see the start offset of the searched slice')
+                    continue
+                res = ('call', t.callee.path, x)
+                P = [Aff.sym(('f', res, 'Some', '0'))]
+                verdicts = []
+                # (1) values computed from the found offset on any path
+                for p in allp:
+                    for v in list(p.env.values()) + [v2 for (_, _, v2) in p.writes] + [a2 for (_, _, args) in p.effects for a2 in args]:
+                        for a in _vals(v):
+                            for ps in P:
+                                k = ps.single()
+                                if a.t.get(k) == 1:
+                                    rest = a - ps
+                                    verdicts.append((rest - Aff.const(rest.c), rest.c, 'value %r' % (a,)))
+                # (2) Option::map(closure): closure(capture, found) = capture + found + c
                 for cb in prog.closures_of(b):
                     init = Path()
                     init.env[1] = Aff.sym(('env',))
                     init.env[2] = Aff.sym(('found',))
                     qs = [q for q in Sym(prog, cb).run(0, init=init) if q.end[0] == 'return']
-                    if len(qs) == 1 and isinstance(qs[0].env.get(0), Aff):
+                    if len(qs) == 1 and isinstance(qs[0].env.get(0), Aff) and qs[0].env[0].t.get(('found',)) == 1:
                         r = qs[0].env[0] - Aff.sym(('found',))
-                        ups = [s for s in r.syms() if isinstance(s, tuple) and s[0] == 'f' and s[1] == ('env',)]
-                        if len(r.t) == 1 and len(ups) == 1 and r.t.get(ups[0]) == 1:
-                            # which operand of the parent is that upvar?
-                            idx = [i for i, nm in enumerate(cb.meta.get('upvars', []))] if hasattr(cb, 'meta') else []
-                            par = None
-                            for p in ent:
-                                for (bx, tt, a) in p.effects:
-                                    for av in a:
-                                        if isinstance(av, Agg) and av.kind == 'closure' and len(av.fields) >= 1:
-                                            par = av.fields
-                            upname = ups[0][3]
-                            k = None
-                            try:
-                                k = int(upname)
-                            except ValueError:
-                                names = [u for u in (cb.j.get('upvar_names') or [])]
-                                if upname in names:
-                                    k = names.index(upname)
-                            val = par[k] if par is not None and k is not None and k < len(par) else (par[0] if par is not None and len(par) == 1 else None)
-                            rebased = (val, r.c)
-                            detail = 'closure adds its capture `%s` (= %r in the caller) + %d' % (upname, val, r.c)
-                # (b) a loop over Memchr: `pos = X + item`
-                if rebased is None and loops:
-                    for h in loops:
-                        for p in ev.run(h, stops={h}, init=self_init()):
-                            for l, v in p.env.items():
-                                if isinstance(l, int) and isinstance(v, Aff):
-                                    items = [s for s in v.t if isinstance(s, tuple) and s[0] == 'f' and isinstance(s[1], tuple) and s[1][0] == 'call' and 'Iterator::next' in str(s[1][1]) and v.t[s] == 1]
-                                    if items and len(v.t) == 2:
-                                        other = v - Aff.sym(items[0])
-                                        rebased = (other - Aff.const(other.c), other.c)
-                                        detail = 'loop item re-based as %r' % (v,)
-                n += 1
-                ok = rebased is not None and isinstance(rebased[0], Aff) and rebased[0] == S and needle == Aff.const(10)
-                R.add('FIND-1', b, 'found-offset-rebased-by-slice-start', ok, site(b, t.line),
-                      'searched slice starts at %r, needle %r; %s' % (S, needle, detail or 'no re-basing of the result found'))
-                if rebased is not None and 'closure' in detail:
-                    # a finder that hands the re-based offset out as "start of the next line": one behind the terminator
-                    # (CHAIN-1 ties the accessor bounds to exactly this convention)
-                    R.add('FIND-1', b, 'line-start-is-one-behind-the-terminator', rebased[1] == 1, site(b, t.line),
-                          'the finder returns slice start + found %+d (required + 1: the byte after the LF)' % rebased[1])
+                        ups = [s2 for s2 in r.t if isinstance(s2, tuple) and s2[0] == 'f' and s2[1] == ('env',)]
+                        par = None
+                        for p in allp:
+                            for (bx, tt, a) in p.effects:
+                                for av in a:
+                                    if isinstance(av, Agg) and av.kind == 'closure':
+                                        par = av.fields
+                        if len(r.t) == 0:
+                            verdicts.append((Aff.const(0), r.c, 'closure returns found %+d' % r.c))
+                        elif len(r.t) == 1 and len(ups) == 1 and r.t[ups[0]] == 1 and par is not None and len(par) == 1:
+                            verdicts.append((par[0], r.c, 'closure adds its capture (= %r in the caller) %+d' % (par[0], r.c)))
+                        else:
+                            # the found offset is re-based by something that is not a plain capture of the slice start
+                            verdicts.append((r - Aff.const(r.c), r.c, 'closure adds %r' % (r,)))
+                # (3) a loop over Memchr: item re-based inside the loop
+                for h in loops:
+                    for p in ev.run(h, stops={h}, init=self_init()):
+                        for l, v in p.env.items():
+                            if isinstance(l, int) and isinstance(v, Aff):
+                                items = [s2 for s2 in v.t if isinstance(s2, tuple) and s2[0] == 'f' and isinstance(s2[1], tuple) and s2[1][0] == 'call' and 'Iterator::next' in str(s2[1][1]) and v.t[s2] == 1]
+                                if items:
+                                    other = v - Aff.sym(items[0])
+                                    verdicts.append((other - Aff.const(other.c), other.c, 'loop item re-based as %r' % (v,)))
+                if not verdicts:
+                    R.undecided('FIND-1', b, 'found-offset-rebased-by-slice-start', where, 'searched slice starts at %r; the use of the found offset is not visible to this rule' % (S,))
+                    continue
+                # the offsets that leave the function (returned / stored / passed on) must be re-based by S; raw ones used only locally are fine
+                good = [v for v in verdicts if v[0] == S]
+                bad = [v for v in verdicts if v[0] != S and not v[0].is_const()]
+                raw = [v for v in verdicts if v[0].is_const() and v[0].c == 0]
+                ok = bool(good) and not bad
+                if not good and raw and not bad:
+                    ok = False
+                R.add('FIND-1', b, 'found-offset-rebased-by-slice-start', ok, where,
+                      'searched slice starts at %r; %s' % (S, '; '.join(sorted(set(v[2] for v in (bad or good or raw))))[:300]))
+                if any('closure' in v[2] or 'value' in v[2] for v in good) and not loops and str(b.local_tys[0]).replace(' ', '').endswith('Option<usize>'):
+                    # the constant of the value that is handed out (the return place), or of the closure result
+                    cs = set(v[1] for v in good if 'closure' in v[2])
+                    for p in allp:
+                        if p.end[0] == 'return':
+                            for a in _vals(p.env.get(0)):
+                                for ps in P:
+                                    if a.t.get(ps.single()) == 1 and (a - ps - Aff.const((a - ps).c)) == S:
+                                        cs.add((a - ps).c)
+                    cs = sorted(cs)
+                    if not cs:
+                        continue
+                    R.add('FIND-1', b, 'line-start-is-one-behind-the-terminator', cs == [1], where, 'the finder returns slice start + found %s (required + 1: the byte after the LF)' % cs)
     R.floor('FIND-1', 2)
 
 
